@@ -203,7 +203,7 @@ func typedHistory(ctx context.Context, rep *mon.Reporter, g *tGraph, focus, seed
 			rep.Violation(sig+"interrupted-call-"+how+"/"+formOf(c.Para),
 				fmt.Sprintf("the uninterrupted run succeeds, but with interrupt points configured the first call (%s) neither finished nor returned an interrupt: %s\n%s", c.Para, c.String(), extra()), wit)
 		} else {
-			rep.Violation(sig+"resume-"+how+"/"+formOf(h.Calls[i-1].Para)+"->"+formOf(c.Para),
+			rep.Violation(sig+"resume-"+how+"/"+formsUpTo(h, i),
 				fmt.Sprintf("call %d (%s) resumed the checkpoint written by call %d (%s) and failed: %s\n%s", i, c.Para, i-1, h.Calls[i-1].Para, c.String(), extra()), wit)
 		}
 		return
@@ -214,10 +214,7 @@ func typedHistory(ctx context.Context, rep *mon.Reporter, g *tGraph, focus, seed
 	}
 	interrupts := len(h.Calls) - 1
 	rep.Count("typed_interrupts", int64(interrupts))
-	forms := formOf(h.final().Para)
-	if interrupts > 0 {
-		forms = formOf(h.Calls[len(h.Calls)-2].Para) + "->" + forms
-	}
+	forms := formsUpTo(h, len(h.Calls)-1)
 	if got := render(h.final().Out); got != base.out {
 		rep.Violation(sig+"wrong-output/"+forms, fmt.Sprintf("final output differs from the uninterrupted run\n  want %s\n  got  %s\n%s", base.out, got, extra()), wit)
 		return
@@ -275,4 +272,20 @@ func typedHistory(ctx context.Context, rep *mon.Reporter, g *tGraph, focus, seed
 	if sample {
 		rep.Sample(map[string]any{"typed_spec": g, "plan": plan.String(), "history": h.render()})
 	}
+}
+
+// formsUpTo: in which forms the graph ran in calls 0..i: value-only, stream-only or mixed-forms (a checkpoint
+// written in one form was resumed in the other somewhere on the way).
+func formsUpTo(h *tHistory, i int) string {
+	seen := map[string]bool{}
+	for k := 0; k <= i && k < len(h.Calls); k++ {
+		seen[formOf(h.Calls[k].Para)] = true
+	}
+	switch {
+	case seen["value"] && seen["stream"]:
+		return "mixed-forms"
+	case seen["stream"]:
+		return "stream-only"
+	}
+	return "value-only"
 }
